@@ -1,5 +1,5 @@
-From Clip Require Import base.Geom base.Winding base.Region base.Dist.
+From Clip Require Import base.Geom base.Winding base.Region base.Dist base.GenPos model.RegionCheck.
 Require Import ExtrOcamlBasic.
 Extraction Language OCaml.
 Extraction "m.ml" wn wn_paths on_path on_paths area2 area2_paths spec_closed in_result open_in_result
-  ct_of_Z fr_of_Z far_from near_some edges_closed edges_open min_dist2 dist2_pt_seg bbox_of cross dot pt_eqb.
+  ct_of_Z fr_of_Z far_from near_some edges_closed edges_open min_dist2 dist2_pt_seg bbox_of cross dot pt_eqb general_position prep check_prep expected.
